@@ -1182,7 +1182,11 @@ func runC16(ops []string) (res CaseResult) {
 			hits = append(hits, hitRec{call, ret, false}) // may have recorded entries without failing
 		}
 		switch f[2] {
-		case "ins", "del", "insempty", "insnil", "mergechild", "mergechanges", "cmerge":
+		case "cmerge", "cins", "cdel":
+			// a child merge brings in everything the child recorded; child updates feed it
+			updCalls = append(updCalls, call)
+			updNodes = append(updNodes, 1<<20)
+		case "ins", "del", "insempty", "insnil", "mergechild", "mergechanges":
 			updCalls = append(updCalls, call)
 			n := 8
 			if len(f) > 3 {
